@@ -904,6 +904,13 @@ def _idents_defs(se, a, kw):
     return ops.mk_setv(OBJ("TagLike"), ops.UF("idents_defs", z3.IntSort(), z3.ArraySort(z3.IntSort(), z3.BoolSort()))(a[0].t))
 
 
+@specfun("dyn_isinstance")
+def _dyn_isinstance(se, a, kw):
+    """isinstance(x, <classes>) of an object whose schema class stands for several real classes, as the engine models it"""
+    nm = z3.simplify(a[1].t).as_string()
+    return vbool(z3.And(a[0].t != 0, ops.UF("dyn_isinstance_" + nm, z3.IntSort(), z3.BoolSort())(a[0].t)))
+
+
 @specfun("any_isinstance")
 def _any_isinstance(se, a, kw):
     """isinstance(x, <classes>) of a dynamically typed value, as the engine models it: any_isinstance(x, 'A_B') for (A, B)"""
